@@ -139,7 +139,7 @@ MUTANTS: List[Dict] = [
     M("store3-copy-not-move", "breaking", TR, "{name: scfg.graph[name] for name in sorted(region_blocks)}", "{name: replace(scfg.graph[name]) for name in sorted(region_blocks)}", ["STORE-3"], "blocks copied instead of moved"),
     M("store4-remove-append", "breaking", TR, "                    new_jt[new_jt.index(jt)] = synth_assign\n                # If the target is the loop_head", "                    new_jt.remove(jt)\n                    new_jt.append(synth_assign)\n                # If the target is the loop_head", ["STORE-4"], "positions of the successors change"),
     M("store4-wrong-source", "breaking", TR, "        jt = list(entry._jump_targets)\n", "        jt = list(scfg.graph[region_header]._jump_targets)\n", ["STORE-4"], "targets of another block are written to the entry"),
-    M("store5-two-stores", "breaking", SCFG, "                        if new_name not in jt:\n                            jt[jt.index(s)] = new_name\n", "                        if new_name not in jt:\n                            jt[jt.index(s)] = new_name + s\n", ["STORE-5", "NAME-3"], "a different new name per successor"),
+    M("store5-two-stores", "breaking", SCFG, "                        if new_name not in jt:\n                            jt[jt.index(s)] = new_name\n", "                        if new_name not in jt:\n                            jt[jt.index(s)] = new_name + s\n", ["STORE-5"], "a different new name per successor"),
     M("store6-drop-extract-prop", "breaking", TR, "        if isinstance(entry, RegionBlock):\n            entry = update_exiting(entry, region_header, region_name)\n", "", ["STORE-6"]),
     M("store6-drop-recursion", "breaking", TR, "    if isinstance(region_exiting_block, RegionBlock):\n        region_exiting_block = update_exiting(\n            region_exiting_block, new_region_header, new_region_name\n        )\n", "", ["STORE-6"]),
     M("store6-wrong-pair", "breaking", SCFG, "                    block = update_exiting(block, s, new_name)\n", "                    block = update_exiting(block, new_name, s)\n", ["STORE-6"], "old/new swapped in the propagation"),
@@ -305,6 +305,24 @@ MUTANTS: List[Dict] = [
     M("query2-exit-must-be-in-graph", "breaking", SCFG, "                if jt not in subgraph:\n                    exiting.add(inside)\n                    exits.add(jt)\n", "                if jt not in subgraph:\n                    exiting.add(inside)\n                    if jt in self.graph:\n                        exits.add(jt)\n", ["QUERY-2"]),
     M("query3-seen-begin", "breaking", SCFG, "        seen = set()\n        to_vist = list(self.graph[begin].jump_targets)\n", "        seen = {begin}\n        to_vist = list(self.graph[begin].jump_targets)\n", ["QUERY-3"]),
     M("disp9-nested-negated", "breaking", SCFG, "                    if isinstance(inner, RegionBlock):\n", "                    if not isinstance(inner, RegionBlock):\n", ["DISP-9"]),
+    M("name4-group-and", "breaking", SCFG, "                kind = match.group(1) or match.group(3)\n", "                kind = match.group(1) and match.group(3)\n", ["NAME-4"]),
+    M("name4-wrong-group", "breaking", SCFG, "                kind = match.group(1) or match.group(3)\n", "                kind = match.group(2) or match.group(3)\n", ["NAME-4"]),
+    M("disp10-drop-digraph", "breaking", RE, "        from graphviz import Digraph\n\n        self.g = Digraph()\n\n    def render_region_block(\n        self, digraph: \"Digraph\", name: str, regionblock: RegionBlock\n    ) -> None:\n        # render subgraph\n        with digraph.subgraph(name=f\"cluster_{name}\") as subg:\n            color = \"#648FFF\"", "        from graphviz import Digraph  # noqa\n\n    def render_region_block(\n        self, digraph: \"Digraph\", name: str, regionblock: RegionBlock\n    ) -> None:\n        # render subgraph\n        with digraph.subgraph(name=f\"cluster_{name}\") as subg:\n            color = \"#648FFF\"", ["DISP-10"]),
+    M("disp10-arm-no-call", "breaking", RE, "        elif type(block) == PythonBytecodeBlock:  # noqa: E721\n            self.render_basic_block(digraph, name, block)\n", "        elif type(block) == PythonBytecodeBlock:  # noqa: E721\n            pass\n", ["DISP-10"]),
+    M("disp10-arm-arg-swap", "breaking", RE, "            self.render_python_ast_block(digraph, name, block)  # type: ignore\n", "            self.render_python_ast_block(name, digraph, block)  # type: ignore\n", ["DISP-10"]),
+    M("disp10-no-node", "breaking", RE, "            raise Exception(\"Unknown name type: \" + name)\n        digraph.node(str(name), shape=\"rect\", label=body)\n\n    def render_byteflow", "            raise Exception(\"Unknown name type: \" + name)\n\n    def render_byteflow", ["DISP-10"]),
+    M("disp10-no-render-loop", "breaking", RE, "        for name, block in byteflow.scfg.graph.items():\n            self.render_block(self.g, name, block)\n", "        for name, block in byteflow.scfg.graph.items():\n            pass\n", ["DISP-10"]),
+    M("disp10-cluster-not-recursive", "breaking", RE, "            assert regionblock.subregion is not None\n            for name, block in regionblock.subregion.graph.items():\n                self.render_block(subg, name, block)\n\n    def render_basic_block(\n        self, digraph: \"Digraph\", name: str, block: BasicBlock\n    ) -> None:\n        if name.startswith", "            assert regionblock.subregion is not None\n            for name, block in regionblock.subregion.graph.items():\n                self.render_block(digraph, name, block)\n\n    def render_basic_block(\n        self, digraph: \"Digraph\", name: str, block: BasicBlock\n    ) -> None:\n        if name.startswith", ["DISP-10"]),
+    M("total9-negated-name-test", "breaking", RE, "        if isinstance(name, str):\n            body = name + r\"\\l\"\n            body += r\"\\l\".join(\n                (f\"{k} = {v}\" for k, v in block.variable_assignment.items())\n            )\n        else:\n            raise Exception(\"Unknown name type: \" + name)\n        digraph.node(str(name), shape=\"rect\", label=body)\n\n    def render_branching_block(\n        self, digraph: \"Digraph\", name: str, block: SyntheticBranch\n    ) -> None:\n        if isinstance(name, str):\n            body = name + r\"\\l\"\n            body += rf\"variable: {block.variable}\\l\"", "        if not isinstance(name, str):\n            body = name + r\"\\l\"\n            body += r\"\\l\".join(\n                (f\"{k} = {v}\" for k, v in block.variable_assignment.items())\n            )\n        else:\n            raise Exception(\"Unknown name type: \" + name)\n        digraph.node(str(name), shape=\"rect\", label=body)\n\n    def render_branching_block(\n        self, digraph: \"Digraph\", name: str, block: SyntheticBranch\n    ) -> None:\n        if isinstance(name, str):\n            body = name + r\"\\l\"\n            body += rf\"variable: {block.variable}\\l\"", ["TOTAL-9"]),
+    M("total9-inverted-assert", "breaking", RE, "            subg.attr(color=color, label=regionblock.name)\n            assert regionblock.subregion is not None\n            for name, block in regionblock.subregion.graph.items():\n                self.render_block(subg, name, block)\n\n    def render_basic_block(\n        self, digraph: \"Digraph\", name: str, block: BasicBlock\n    ) -> None:\n        if name.startswith", "            subg.attr(color=color, label=regionblock.name)\n            assert regionblock.subregion is None\n            for name, block in regionblock.subregion.graph.items():\n                self.render_block(subg, name, block)\n\n    def render_basic_block(\n        self, digraph: \"Digraph\", name: str, block: BasicBlock\n    ) -> None:\n        if name.startswith", ["TOTAL-9", "TOTAL-6"]),
+    M("use1-no-default-colour", "breaking", RE, "        from graphviz import Digraph\n\n        self.g = Digraph()\n\n    def render_region_block(\n        self, digraph: \"Digraph\", name: str, regionblock: RegionBlock\n    ) -> None:\n        # render subgraph\n        with digraph.subgraph(name=f\"cluster_{name}\") as subg:\n            color = \"#648FFF\"\n            if regionblock.kind == \"branch\":\n                color = \"#FFB000\"\n            if regionblock.kind == \"tail\":\n                color = \"#785EF0\"", "        from graphviz import Digraph\n\n        self.g = Digraph()\n\n    def render_region_block(\n        self, digraph: \"Digraph\", name: str, regionblock: RegionBlock\n    ) -> None:\n        # render subgraph\n        with digraph.subgraph(name=f\"cluster_{name}\") as subg:\n            if regionblock.kind == \"branch\":\n                color = \"#FFB000\"\n            if regionblock.kind == \"tail\":\n                color = \"#785EF0\"", ["USE-1"]),
+    M("attr1-negated-bytecode-test", "breaking", RE, "        if name.startswith(\"python_bytecode\") and isinstance(\n            block, PythonBytecodeBlock\n        ):\n            instlist = block.get_instructions(self.bcmap)\n            body = name + r\"\\l\"\n            body += r\"\\l\".join(\n                [f\"{inst.offset:3}: {inst.opname}\" for inst in instlist] + [\"\"]\n            )\n        else:\n            body = name + r\"\\l\"\n\n        digraph.node(str(name), shape=\"rect\", label=body)\n\n    def render_control_variable_block(\n        self, digraph: \"Digraph\", name: str, block: SyntheticAssignment\n    ) -> None:\n        if isinstance(name, str):\n            body = name + r\"\\l\"\n            body += r\"\\l\".join(\n                (f\"{k} = {v}\" for k, v in block.variable_assignment.items())\n            )\n        else:\n            raise Exception(\"Unknown name type: \" + name)\n        digraph.node(str(name), shape=\"rect\", label=body)\n\n    def render_branching_block(\n        self, digraph: \"Digraph\", name: str, block: SyntheticBranch\n    ) -> None:\n        if isinstance(name, str):\n            body = name + r\"\\l\"\n            body += rf\"variable: {block.variable}\\l\"", "        if not (name.startswith(\"python_bytecode\") and isinstance(\n            block, PythonBytecodeBlock\n        )):\n            instlist = block.get_instructions(self.bcmap)\n            body = name + r\"\\l\"\n            body += r\"\\l\".join(\n                [f\"{inst.offset:3}: {inst.opname}\" for inst in instlist] + [\"\"]\n            )\n        else:\n            body = name + r\"\\l\"\n\n        digraph.node(str(name), shape=\"rect\", label=body)\n\n    def render_control_variable_block(\n        self, digraph: \"Digraph\", name: str, block: SyntheticAssignment\n    ) -> None:\n        if isinstance(name, str):\n            body = name + r\"\\l\"\n            body += r\"\\l\".join(\n                (f\"{k} = {v}\" for k, v in block.variable_assignment.items())\n            )\n        else:\n            raise Exception(\"Unknown name type: \" + name)\n        digraph.node(str(name), shape=\"rect\", label=body)\n\n    def render_branching_block(\n        self, digraph: \"Digraph\", name: str, block: SyntheticBranch\n    ) -> None:\n        if isinstance(name, str):\n            body = name + r\"\\l\"\n            body += rf\"variable: {block.variable}\\l\"", ["ATTR-1"]),
+    M("ok-render-helper-local", "benign", RE, "        for name, block in byteflow.scfg.graph.items():\n            self.render_block(self.g, name, block)\n", "        graph = byteflow.scfg.graph\n        for name, block in graph.items():\n            self.render_block(self.g, name, block)\n", []),
+    M("ok-render-colour-table", "benign", RE, "            color = \"#648FFF\"\n            if regionblock.kind == \"branch\":\n                color = \"#FFB000\"\n            if regionblock.kind == \"tail\":\n                color = \"#785EF0\"\n            if regionblock.kind == \"head\":\n                color = \"#DC267F\"\n            subg.attr(color=color, label=regionblock.name)\n            assert regionblock.subregion is not None\n            for name, block in regionblock.subregion.graph.items():\n                self.render_block(subg, name, block)\n\n    def render_basic_block(\n        self, digraph: \"Digraph\", name: str, block: BasicBlock\n    ) -> None:\n        if name.startswith", "            color = {\"branch\": \"#FFB000\", \"tail\": \"#785EF0\", \"head\": \"#DC267F\"}.get(regionblock.kind, \"#648FFF\")\n            subg.attr(color=color, label=regionblock.name)\n            assert regionblock.subregion is not None\n            for name, block in regionblock.subregion.graph.items():\n                self.render_block(subg, name, block)\n\n    def render_basic_block(\n        self, digraph: \"Digraph\", name: str, block: BasicBlock\n    ) -> None:\n        if name.startswith", []),
+    M("lower12-no-advance", "breaking", AT, "            false_block_index = self.block_index\n            merge_block_index = self.block_index + 1\n            self.block_index += 2\n", "            false_block_index = self.block_index\n            merge_block_index = self.block_index + 1\n", ["LOWER-12"]),
+    M("lower12-short-advance", "breaking", AT, "        enif_index = self.block_index + 2\n        self.block_index += 3\n", "        enif_index = self.block_index + 2\n        self.block_index += 2\n", ["LOWER-12"]),
+    M("lower12-shared-index", "breaking", AT, "        then_index = self.block_index\n        else_index = self.block_index + 1\n", "        then_index = self.block_index\n        else_index = self.block_index\n", ["LOWER-12"]),
+    M("ok-lower12-spare-index", "benign", AT, "        enif_index = self.block_index + 2\n        self.block_index += 3\n", "        enif_index = self.block_index + 2\n        self.block_index += 4\n", []),
     # ------------------------------------------------ benign
     M("ok-rename-locals", "benign", TR, None, None, [], "rename locals of loop_restructure_helper (computed edit)"),
     M("ok-sorted-key", "benign", TR, "    for name in sorted(loop):\n", "    for name in sorted(loop, key=str):\n", []),
